@@ -55,8 +55,9 @@ func Gen(seed uint64, profile string) *Scenario {
 		}
 	case "hostile", "mixed":
 		if r.Chance(1, 12) {
-			sc.Allow = []string{simkit.Pick(r, []string{"/w/ext", "/w/ext/dir", "../victim"})}
+			sc.Allow = []string{simkit.Pick(r, []string{"/w/ext", "/w/ext/dir", "../victim", "../shared"})}
 		}
+		sc.SharedPacker = r.Chance(1, 3)
 		n := 1
 		if r.Chance(1, 4) {
 			n = 2 + r.Intn(2)
@@ -67,6 +68,22 @@ func Gen(seed uint64, profile string) *Scenario {
 				addReaderFaults(simkit.NewRNG(seed, "uw/fault"+string(rune('0'+i))), &ar)
 			}
 			sc.Archives = append(sc.Archives, ar)
+		}
+		if len(sc.Allow) == 1 && sc.Allow[0] == "../shared" && len(sc.Archives) >= 2 {
+			// one Packer, two destinations: the relative allow-list entry names /w/shared for
+			// the first and /w/deep2/shared for the second
+			sc.SharedPacker = true
+			sc.Dst = "/w/dst"
+			hr := simkit.NewRNG(seed, "uw/shared")
+			first := Entry{Name: "to-shared", Type: "sym", Mode: 0o777, Sec: 1000000000, Link: "../shared/keep"}
+			sc.Archives[0].Entries = append([]Entry{first}, sc.Archives[0].Entries...)
+			sc.Archives[1].Dst = "/w/deep2/dst"
+			second := Entry{Name: simkit.Pick(hr, []string{"x", "a/x"}), Type: "sym", Mode: 0o777, Sec: 1000000000}
+			second.Link = simkit.Pick(hr, []string{"../../shared/keep", "../../shared", "../shared/keep"})
+			if second.Name == "a/x" {
+				second.Link = "../" + second.Link
+			}
+			sc.Archives[1].Entries = append([]Entry{second}, sc.Archives[1].Entries...)
 		}
 	case "rawmut":
 		st := newGenState(sc)
@@ -373,8 +390,34 @@ func genHostile(r *simkit.RNG) Archive {
 	tok := 0
 	for i := 0; i < n; i++ {
 		var e Entry
+		viaLink := false
 		entryTimes(r, &e)
 		switch {
+		case len(ar.Entries) > 0 && r.Chance(1, 5):
+			// through an earlier link: name something that exists only by way of the link,
+			// and (for links) climb from there
+			var links []Entry
+			for _, pe := range ar.Entries {
+				if pe.Type == "sym" {
+					links = append(links, pe)
+				}
+			}
+			if len(links) == 0 {
+				e.Name = hostileName(r)
+				break
+			}
+			l := simkit.Pick(r, links)
+			ln := strings.TrimRight(l.Name, "/")
+			first := simkit.Segs(ln)
+			seg := "a"
+			if len(first) > 0 {
+				seg = first[0]
+			}
+			e.Name = ln + "/" + simkit.Pick(r, []string{seg, seg, "a", "b", "x"})
+			if r.Chance(1, 2) {
+				e.Name += "/" + simkit.Pick(r, []string{"l", "x", "a"})
+			}
+			viaLink = true
 		case len(ar.Entries) > 0 && r.Chance(1, 4):
 			// cooperating entries: reuse an earlier entry's path, as itself,
 			// as a parent, or by way of a '..' detour
@@ -410,7 +453,9 @@ func genHostile(r *simkit.RNG) Archive {
 		case 2:
 			e.Type = "sym"
 			e.Mode = 0o777
-			if plainLinks {
+			if viaLink {
+				e.Link = strings.TrimSuffix(strings.Repeat("../", r.Range(1, 5)), "/")
+			} else if plainLinks {
 				e.Link = okLinkTarget(r, segsOf(e.Name))
 			} else {
 				e.Link = simkit.Pick(r, hostileTargets)
